@@ -156,6 +156,18 @@ def _one(job):
     try: parse(lua, st)
     except LuaSyntaxError as e: return (role, "load_error", str(e), src, lua)
     except RecursionError: return (role, "load_error", "parser recursion (nesting beyond the C-levels limit)", src, lua)
+    # the chunk a user pipes into lua (`-o -`) is the same text: anything else the compiler prints must not land in it
+    import tempfile, shutil, os
+    d = tempfile.mkdtemp(prefix="c06o_", dir=common.SCRATCH)
+    try:
+        open(os.path.join(d, "main.sy"), "w", errors="surrogateescape").write(src)
+        r = subprocess.run([_CTX["sylt"], "-o", "-", "main.sy"], cwd=d, capture_output=True, text=True, errors="surrogateescape", timeout=20)
+    except subprocess.TimeoutExpired: r = None
+    finally: shutil.rmtree(d, ignore_errors=True)
+    if r is not None and r.returncode == 0 and r.stdout != lua:
+        try: parse(r.stdout, {})
+        except LuaSyntaxError as e: return (role, "load_error", "the chunk written to stdout (-o -) differs from the one written to FILE and does not load: %s; first line: %r" % (e, r.stdout.split("\n", 1)[0][:100]), src, r.stdout)
+        except RecursionError: pass
     return (role, "loads", "max_locals=%s max_upvals=%s" % (st.get("max_locals"), st.get("max_upvals")), src, None)
 
 
